@@ -95,6 +95,9 @@ def gen(tier, rng):
         fin = rng.choice([respond_str(200, b"ok", True), respond_str(413, b"big", True), "D"])
         stream = r.render()
         acts = [action_str(reads, fin)]
+        if rng.chance(1, 3):
+            # the body is read to its end with gathered reads whose slices reach beyond what is left of it
+            acts = ["%d@4096*3/%s" % (size + 500, fin)]
         b1 = len(stream)
         for k in range(1 + rng.below(3)):
             f = AReq(method="GET", target="/next%d.%d" % (i, k), version="1.1", headers=[("Host", "h")])
@@ -133,6 +136,15 @@ def gen(tier, rng):
                 yield segcase(base, c), {"kind": "upgrade-cut", "family": "upgrade"}
         for segs, kind in splits_for(rng, stream, tier)[-4:]:
             yield segcase(base, segs), {"kind": kind, "family": "upgrade"}
+    # HTTP/1.0 without keep-alive (the request that ends the connection) with a streamed body that arrives in pieces
+    for i in range(3 if tier == "quick" else 20):
+        size = rng.choice([1025, 3000, 20000])
+        body = body_bytes("h10-%d" % i, size)
+        head = ("POST /h10-%d HTTP/1.0\r\nHost: h\r\n%sContent-Length: %d\r\n\r\n" % (i, rng.choice(["", "Connection: x-foo\r\n"]), size)).encode()
+        base = cv_line(head + body, [action_str([(None, 4096)], respond_str(200, b"ok", True))])
+        yield base, {"kind": "unsplit", "family": "http10-streamed"}
+        for c in ([len(head)], [len(head) + 1], [len(head), size // 2], [len(head) + size - 1]):
+            yield segcase(base, c) .replace(" gap=1", " gap=30"), {"kind": "http10-cut", "family": "http10-streamed"}
     # the HTTP/2 connection preface sent to this HTTP/1 server (505 for "PRI * HTTP/2.0", then "SM" is a malformed request
     # line): every cut inside it
     pri = b"PRI * HTTP/2.0\r\n\r\nSM\r\n\r\n"
